@@ -90,24 +90,8 @@ func VerifC10_FailAndReject() {
 
 // L3: state/ledger agreement as a step invariant: an operation on asks or allocations moves the application to
 // Completing only when it holds no asks, no real allocations and no placeholders; it never reaches Completed directly.
-func VerifC10_CompletingOnlyWhenEmpty() {
-	vPanics(false)
-	w := vAppWorld("Accepted", "Running", "Resuming")
-	vAssume(appInv(w))
-	op := vChoice("op", 3)
-	vSplit("op")
-	pre := w.app.stateMachine.Current()
-	switch op {
-	case 0:
-		key := vStr("key", "ask-1", "ask-2", "")
-		w.app.removeAsksInternal(key, si.EventRecord_REQUEST_CANCEL)
-	case 1:
-		key := vStr("rkey", "ask-1", "ask-2")
-		w.app.removeAllocationInternal(key, si.TerminationType(vChoice("tt", 6)))
-	case 2:
-		ask := vAsk("new", "ask-new", false)
-		_ = w.app.AddAllocationAsk(ask)
-	}
+// one harness per operation: the merged state of three operations in one harness was 16 MB of SMT per query
+func vC10Post(w *vAppW, pre string, op int) {
 	post := w.app.stateMachine.Current()
 	vAssert(post == pre || succState(pre, post), "L3 operations on asks and allocations follow the life cycle")
 	vAssert(post != "Completed" && post != "Failed", "L3 no single ask/allocation operation terminates a live application")
@@ -128,4 +112,36 @@ func VerifC10_CompletingOnlyWhenEmpty() {
 		vAssert(post != "Completing", "L3 adding an ask never leaves the application Completing")
 	}
 	vReach("end")
+}
+
+func VerifC10_CompletingOnlyWhenEmpty_RemoveAsks() {
+	vPanics(false)
+	w := vAppWorld("Accepted", "Running", "Resuming")
+	vAssume(appInv(w))
+	pre := w.app.stateMachine.Current()
+	key := vStr("key", "ask-1", "ask-2", "")
+	vSplit("key")
+	w.app.removeAsksInternal(key, si.EventRecord_REQUEST_CANCEL)
+	vC10Post(w, pre, 0)
+}
+
+func VerifC10_CompletingOnlyWhenEmpty_RemoveAllocation() {
+	vPanics(false)
+	w := vAppWorld("Accepted", "Running", "Resuming")
+	vAssume(appInv(w))
+	pre := w.app.stateMachine.Current()
+	key := vStr("rkey", "ask-1", "ask-2")
+	vSplit("rkey")
+	w.app.removeAllocationInternal(key, si.TerminationType(vChoice("tt", 6)))
+	vC10Post(w, pre, 1)
+}
+
+func VerifC10_CompletingOnlyWhenEmpty_AddAsk() {
+	vPanics(false)
+	w := vAppWorld("Accepted", "Running", "Resuming")
+	vAssume(appInv(w))
+	pre := w.app.stateMachine.Current()
+	ask := vAsk("new", "ask-new", false)
+	_ = w.app.AddAllocationAsk(ask)
+	vC10Post(w, pre, 2)
 }
